@@ -225,7 +225,7 @@ func loopProgram(kind int) [][]byte {
 func runC17Cancel(c Case, res *CaseResult) {
 	r := h.NewRNG(c.Seed)
 	kind := int(c.P[0])
-	k := uint64(c.P[1]) // cancel when the step counter reaches k (0 = before start)
+	k := uint64(c.P[1])              // cancel when the step counter reaches k (0 = before start)
 	resetAfterCancel := c.P[1] == -1 // cancelled between two transactions: the host then re-arms the EVM with Reset for the next one
 	if resetAfterCancel {
 		k = 0
